@@ -187,7 +187,14 @@ def check_case(case):
             except Refusal:
                 pass
             return dict(labels=labels + ["sg-nonpositive-refusal"], nontrivial=False)
-    res, settings = _process(hv, arrays, dt, spec)
+    try:
+        res, settings = _process(hv, arrays, dt, spec, allow=(ValueError,))
+    except Refusal as r0:
+        # legitimate only where the ratio itself is undefined (0/0: an exactly periodic window without taper and padding)
+        pre, _ = _reference(arrays, dt, spec, spec["_nfft"])
+        if all(np.all(np.isfinite(r)) for _, r in pre):
+            raise Violation(f"process[{m}] refused the request ({r0.exc}) although the spectral ratio is finite at every requested centre frequency")
+        return dict(labels=labels + ["ratio-undefined-refused"], nontrivial=False)
 
     # frequency vector = requested centres, exactly; FFT length pads, never truncates
     require(same_bits(res.frequency, fcs), f"result.frequency differs from the requested centre frequencies")
